@@ -140,12 +140,13 @@ theorem no_finisher (hr : Reachable n nthreads stride s)
     exact absurd hg (h g)
 
 /-- idle word: every thread is outside the machinery, or at `casInit` (holding an idle word), or at
-`casJoin` holding a resizing word – which differs from the current word, so that CAS will fail -/
+`casJoin` holding a resizing word – which differs from the current word, so that CAS will fail –,
+or somewhere on one of the two join paths before that CAS -/
 theorem single_finisher_idle (hr : Reachable n nthreads stride s) {thr : Nat}
     (h : s.sizeCtl = .idle thr) {l : Local} (hl : l ∈ s.threads) :
     l.finishing = false ∧
     (l.pc = .idle ∨ (∃ thr', l.pc = .casInit (.idle thr')) ∨
-     (∃ g c, l.pc = .casJoin (.resizing g c) ∧ c ≠ 1 ∧ s.sizeCtl ≠ .resizing g c)) := by
+     (∃ g c, l.pc = .casJoin (.resizing g c) ∧ s.sizeCtl ≠ .resizing g c) ∨ joining l = true) := by
   have I := hr.inv
   obtain ⟨t, ht⟩ := List.mem_iff_getElem?.mp hl
   have hP : P s = 0 := by
@@ -159,7 +160,7 @@ theorem single_finisher_idle (hr : Reachable n nthreads stride s) {thr : Nat}
   have hq := quiet_of_not l h1 h2
   have hL := I.locals t l ht
   unfold quiet at hq; unfold LocalOk at hL
-  split at hq <;> simp_all
+  split at hq <;> simp_all [JoinOk, joining] <;> grind
 
 /-- target 2, all parts in one statement -/
 theorem single_finisher (hr : Reachable n nthreads stride s) :
@@ -172,7 +173,7 @@ theorem single_finisher (hr : Reachable n nthreads stride s) :
     (∀ thr, s.sizeCtl = .idle thr → ∀ l ∈ s.threads,
         l.finishing = false ∧
         (l.pc = .idle ∨ (∃ thr', l.pc = .casInit (.idle thr')) ∨
-         (∃ g c, l.pc = .casJoin (.resizing g c) ∧ c ≠ 1 ∧ s.sizeCtl ≠ .resizing g c))) :=
+         (∃ g c, l.pc = .casJoin (.resizing g c) ∧ s.sizeCtl ≠ .resizing g c) ∨ joining l = true)) :=
   ⟨fun _ _ _ _ ht hu hl hl' => single_finisher_unique hr ht hu hl hl',
    fun _ hl hf => single_finisher_word hr hl hf,
    fun _ h _ hl => single_finisher_idle hr h hl⟩
@@ -281,7 +282,7 @@ theorem resize_starts_from_idle (hr : Reachable n nthreads stride s) {t c : Nat}
   | none => simp [step, hl] at hs
   | some l =>
     have hq := (single_finisher_idle hr hidle (List.mem_of_getElem? hl)).2
-    rcases hq with hpc | ⟨thr', hpc⟩ | ⟨g, k, hpc, _, hk⟩
+    rcases hq with hpc | ⟨thr', hpc⟩ | ⟨g, k, hpc, hk⟩ | hj
     · simp only [step, hl, hpc, hidle] at hs
       split at hs <;> first | (injection hs with hs; subst hs; simp_all [setT]; done) | simp_all
     · simp only [step, hl, hpc, hidle] at hs
@@ -295,6 +296,10 @@ theorem resize_starts_from_idle (hr : Reachable n nthreads stride s) {t c : Nat}
       split at hs
       · simp_all
       · injection hs with hs; subst hs; simp_all [setT]
+    · exfalso
+      cases hpc : l.pc <;> simp [joining, hpc] at hj <;> simp only [step, hl, hpc, hidle] at hs
+      all_goals
+        (repeat' split at hs) <;> (injection hs with hs; subst hs; simp_all [setT])
 
 /-- a resizing word is only ever replaced by a resizing word with the *same* stamp or by an idle
 word: resizes of different generations never overlap -/
@@ -313,13 +318,13 @@ theorem stamp_stable (hr : Reachable n nthreads stride s) {t ch : Nat} {s' : Sta
       · injection hs with hs; subst hs; simp_all [setT]
     case casJoin sc =>
       split at hs
-      · split at hs <;> (injection hs with hs; subst hs; simp_all [setT])
+      · (repeat' split at hs) <;> (injection hs with hs; subst hs; simp_all)
       · injection hs with hs; subst hs; simp_all [setT]
     case leaveCas sc =>
       split at hs
       · split at hs
-        · split at hs <;> (injection hs with hs; subst hs; simp_all [setT])
-        · injection hs with hs; subst hs; simp_all [setT]
+        · split at hs <;> (injection hs with hs; subst hs; simp_all)
+        · injection hs with hs; subst hs; simp_all
       · injection hs with hs; subst hs; simp_all [setT]
     all_goals
       (repeat' split at hs) <;> (injection hs with hs; subst hs; simp_all [setT])
@@ -348,6 +353,91 @@ theorem quiescent_after (hr : Reachable n nthreads stride s) (h : allIdle s) :
     have h2 := I.fin_eq; rw [hsc] at h2
     have : c = 1 := by omega
     subst this; simp [finWord] at h2; omega
+
+/-! ## 8. `no_stale_join` (finding F6: what the generation comparison of `help_transfer` buys) -/
+
+/-- the model parameters are never changed by a step -/
+theorem checkGen_true (hr : Reachable n nthreads stride s) : s.checkGen = true := hr.inv.check_eq
+
+theorem step_maxResizers {t c : Nat} {s' : State} (hs : step s t c = some s') :
+    s'.maxResizers = s.maxResizers ∧ s'.checkGen = s.checkGen := by
+  cases hl : s.threads[t]? with
+  | none => simp [step, hl] at hs
+  | some l =>
+    cases hpc : l.pc <;> simp only [step, hl, hpc] at hs
+    all_goals
+      (repeat' split at hs) <;> (injection hs with hs; subst hs; exact ⟨rfl, rfl⟩)
+
+theorem maxResizers_eq (hr : Reachable n nthreads stride s) : s.maxResizers = 2 ^ 32 - 1 := by
+  induction hr with
+  | init => rfl
+  | step t c _ hs ih => rw [(step_maxResizers hs).1, ih]
+
+/-- a held table is never younger than the current one -/
+theorem held_le_gen (hr : Reachable n nthreads stride s) {l : Local} (hl : l ∈ s.threads) :
+    l.heldGen ≤ s.gen := by
+  obtain ⟨t, ht⟩ := List.mem_iff_getElem?.mp hl
+  exact hr.inv.held_le t l ht
+
+/-- a thread whose join CAS is about to succeed (it is at `casJoin sc` and `sc` is the current word)
+holds the tables of the current generation, the word carries the current stamp and counts at least
+one participant besides the finisher's `1` -/
+theorem join_ready_current (hr : Reachable n nthreads stride s) {l : Local} (hl : l ∈ s.threads)
+    {sc : SC} (hpc : l.pc = .casJoin sc) (hsc : s.sizeCtl = sc) :
+    l.heldGen = s.gen ∧ ∃ k, sc = .resizing s.gen k ∧ 2 ≤ k := by
+  have I := hr.inv
+  obtain ⟨t, ht⟩ := List.mem_iff_getElem?.mp hl
+  have hL := I.locals t l ht
+  simp only [LocalOk, hpc] at hL
+  obtain ⟨_, g, k, rfl, hgh, hk1⟩ := hL
+  have hk : k ≠ 1 := by
+    intro h1; subst h1; exact (hk1 rfl).2 hsc
+  have hg : g = s.gen := I.word_gen_eq hsc hk
+  have hh := I.held_le t l ht
+  have hc := I.cnt_eq
+  rw [hsc] at hc; simp only [cnt] at hc
+  subst hg
+  exact ⟨by omega, k, rfl, by omega⟩
+
+/-- a thread that is past its refusal test and has seen a next table carries a word that is not
+younger than the table it holds (for `help_transfer` they are equal – this is where `checkGen` is
+used –; `add_count` loads the word first and the table afterwards), and if it is a "finishing" word
+it is strictly older and not the current word any more -/
+theorem join_path_word (hr : Reachable n nthreads stride s) {l : Local} (hl : l ∈ s.threads)
+    {sc : SC} (hpc : l.pc = .helpLoadIndex sc ∨ l.pc = .acLoadIndex sc ∨ l.pc = .casJoin sc) :
+    ∃ g k, sc = .resizing g k ∧ g ≤ l.heldGen ∧ l.heldGen ≤ s.gen ∧
+      (k = 1 → g < l.heldGen ∧ s.sizeCtl ≠ sc) := by
+  have I := hr.inv
+  obtain ⟨t, ht⟩ := List.mem_iff_getElem?.mp hl
+  have hL := I.locals t l ht
+  have hh := I.held_le t l ht
+  rcases hpc with hpc | hpc | hpc <;> simp only [LocalOk, hpc] at hL <;>
+    (obtain ⟨_, g, k, rfl, hgh, hk1⟩ := hL
+     exact ⟨g, k, rfl, hgh, hh, fun h1 => by subst h1; exact hk1 rfl⟩)
+
+/-- **no thread is ever admitted to a resize while holding the tables of another generation** -/
+theorem no_stale_join (hr : Reachable n nthreads stride s) : s.staleJoins = 0 := hr.inv.stale_eq
+
+/-- the step form: a `casJoin` step that changes the word is taken by a thread holding the current
+generation, on a word with the current stamp, and makes that thread a participant -/
+theorem join_step_current (hr : Reachable n nthreads stride s) {t c : Nat} {s' : State} {l : Local}
+    {sc : SC} (hl : s.threads[t]? = some l) (hpc : l.pc = .casJoin sc)
+    (hs : step s t c = some s') (hne : s'.sizeCtl ≠ s.sizeCtl) :
+    l.heldGen = s.gen ∧ ∃ k, sc = .resizing s.gen k ∧ 2 ≤ k ∧ s'.sizeCtl = .resizing s.gen (k + 1) ∧
+      ∃ l', s'.threads = s.threads.set t l' ∧ participating l' = true ∧ l'.heldGen = s'.gen := by
+  have hL := hr.inv.locals t l hl
+  simp only [LocalOk, hpc] at hL
+  have hfin := hL.1
+  simp only [step, hl, hpc] at hs
+  split at hs
+  · rename_i hword
+    have hword : s.sizeCtl = sc := by simpa using hword
+    obtain ⟨hh, k, rfl, hk⟩ := join_ready_current hr (List.mem_of_getElem? hl) hpc hword
+    simp only [hh, beq_self_eq_true, if_true] at hs
+    injection hs with hs; subst hs
+    exact ⟨hh, k, rfl, hk, rfl, _, rfl, by simp [participating], rfl⟩
+  · injection hs with hs; subst hs
+    exact absurd rfl hne
 
 theorem threshold_eq (m : Nat) : threshold m = m - m / 4 := rfl
 
